@@ -108,7 +108,7 @@ def pass_rule(rule, facts, fn, permit_field, ban_field, key_desc, limit_kind, ba
 
 def r1(ctx):
     facts = ctx.facts
-    rule = Rule("C18.R1", "stage order and precedence of permit list, ban list, enabled flag and limiter; order of the receive pipeline", floor=14,
+    rule = Rule("C18.R1", "stage order and precedence of permit list, ban list, enabled flag and limiter; order of the receive pipeline", floor=15,
                 engine="A-dom")
     ctx.c18 = {}
     ctx.c18["initial_pass"] = pass_rule(rule, facts, "initial_pass", "permit_ips", "ban_ips", "IP", "Ip", None)
@@ -123,6 +123,31 @@ def r1(ctx):
             if inner[0] == "call" and re.search(r"Hash(Set::contains|Map::contains_key)$", short(inner[1])) and "PERMIT_BAN_LIST" in fmt(inner):
                 k = fmt_short(inner[2][1])
                 rule.check(k == want, "%s tests %s" % (fn, k), "%s|list-key" % fn, "%s looks up %s in the permit/ban list" % (fn, k), loc=b.loc(t.line))
+    # within a stage: the sender's own quota is consulted (and, if exceeded, the sender banned) before the shared total quota is charged -
+    # otherwise a sender over its quota drains the total budget of everyone else, and is dropped without being banned once the total is spent
+    b, p, g, allows, trues, falses = ctx.c18["initial_pass"]
+    own = [(bi, t) for bi, t in allows if any(x[0] == "agg" and x[1].endswith("LimitKind::Ip") for x in walk(p.operand(t.args[1])))]
+    total = [(bi, t) for bi, t in allows if any(x[0] == "agg" and x[1].endswith("LimitKind::Total") for x in walk(p.operand(t.args[1])))]
+    own_ok = []
+    for bi, t, e in g.switches():
+        inner, neg = e, False
+        while inner[0] == "un" and inner[1] == "Not":
+            inner, neg = inner[2], not neg
+        hit = [x for x in walk(inner) if x[0] == "call" and x[1].endswith("rate_limiter::RateLimiter::allows") and x[3] and x[3][1] in [o[0] for o in own]]
+        if not hit:
+            continue
+        f, tr = g.bool_edges(bi) if inner[0] == "call" else (None, None)
+        if inner[0] == "call" and re.search(r"Result::is_err$", short(inner[1])):
+            own_ok.append((bi, tr if neg else f))
+        elif inner[0] == "call" and re.search(r"Result::is_ok$", short(inner[1])):
+            own_ok.append((bi, f if neg else tr))
+        elif inner[0] == "discr":
+            names, _ = g.variant_names(bi)
+            own_ok += [(bi, tb) for v, tb in t.vals if names.get(v) == "Ok"]
+    r = b.reachable(0, removed_edges=own_ok)
+    rule.check(bool(own) and bool(total) and bool(own_ok) and not any(bi in r for bi, _ in total), "initial_pass: the total quota is charged only after the sender's own (IP) quota admitted the packet",
+               "initial_pass|own-quota-first", "initial_pass charges the total quota before (or without) consulting the sender's own IP quota: a sender over its quota uses up the budget of "
+               "the others and escapes the ban once the total is exhausted", loc=b.loc(b.line))
     # handle_inbound pipeline
     hi = facts.coroutine_of("crate::socket::recv::RecvHandler::handle_inbound")
     rule.analysed(hi)
